@@ -107,6 +107,6 @@ Next == S!Next
 RECURSIVE HistHash(_)
 HistHash(i) == IF i = 0 THEN Seed ELSE (HistHash(i - 1) * 31 + hist[i].n * 7 + (IF hist[i].ok THEN 1 ELSE 0) + Len(hist[i].ev)) % 100003
 Stuck == ini.keys.has /\ res.keys.has /\ ini.keys # res.keys /\ Len(hist) > 0 /\ hist[Len(hist)].ev = "R_recv"
-Emit == ((S!Finished \/ Stuck) /\ HistHash(Len(hist)) % Stride = 0) => PrintT(ToJson(Vec))
+Emit == ((S!Finished /\ HistHash(Len(hist)) % Stride = 0) \/ Stuck) => PrintT(ToJson(Vec))       \* (the few disagreement behaviours are all printed)
 Sound == S!Authentic /\ S!KeysAgreeIffUntampered /\ S!NothingUnderDisagreement /\ S!LockStep /\ S!ChildrenAgree
 =============================================================================
